@@ -137,11 +137,12 @@ example : run StoreEx.ops1 =
 Every clause of the statement is a theorem about the model `run` for every history over all five mutating calls (none
 is missing from `Store.Op`).  What the theorems do not say:
 
-* **Order and iterator protocol.**  The real containers are `unordered_map`s, the model keeps insertion order; the
-  theorems speak about the *set* of yielded rules and "no rule twice" only.  The C++ iterator objects (`begin()`/`end()`,
-  `operator++`, the explicit end flag of `Iterator` / `AcceptTransIterator` / `DownAccessorIterator`) are abstracted to
-  "the list of what a complete traversal yields"; partial traversals, iterator comparison and iterator invalidation by a
-  mutating call are not modelled.
+* **Order and iterator invalidation.**  The real containers are `unordered_map`s, the model keeps insertion order; the
+  theorems speak about the *set* of yielded rules and "no rule twice" only.  In this file the traversals are abstracted
+  to "the list of what a complete traversal yields"; the C++ iterator objects (`begin()`/`end()`, `operator++`,
+  `operator*`, the end state of `Iterator` / `AcceptTransIterator` / `DownAccessorIterator`, partial traversals, iterator
+  comparison) are modelled and proved against these lists in `Vata/Properties/C12_Iterators.lean`
+  (`C12_iterator_protocol…`).  Iterator invalidation by a mutating call is not modelled.
 * **Hash-consing.**  The model compares child tuples by value; that the tuple cache makes pointer equality coincide with
   tuple equality (on which `ContainsTransition` and `std::set<TuplePtr>` rely) is assumed, not modelled.
 * **Sharing.**  Here a store is a value; that the views of one object are unaffected by mutations of copies that share
